@@ -111,6 +111,8 @@ def calibrate(cal, raw):
     if isinstance(cal, Spline) and isinstance(raw, float) and (math.isnan(raw) or math.isinf(raw)) and not cal.extrapolate:
         # NaN and the infinities lie outside every closed range of points: without extrapolation the calibration must fail
         raise RefRaise("spline query outside the point range without extrapolation (non-finite raw value)", ("CalibrationError",))
+    if isinstance(cal, Poly) and isinstance(raw, float) and math.isnan(raw) and any(e >= 1 for _, e in cal.terms):
+        return math.nan, 0.0   # a term of order >= 1 in NaN is NaN (also with coefficient 0), whatever the evaluation order
     x = frac(raw)
     if isinstance(cal, Poly):
         terms = [Fraction(c) * x ** e for c, e in cal.terms]
